@@ -414,3 +414,849 @@ func (m *Model) goVersionString() string {
 	}
 	return m.Pkg.Module.GoVersion
 }
+
+// ---------------------------------------------------------------- R-TOMB-XATTRS
+
+// A statement that tombstones a row (value = NULL) and binds xattrs from Go must not bind the
+// row's xattrs as they were read: deleting keeps system xattrs only, so the value must have
+// passed through a filter, except on paths on which the read xattrs are known to be empty.
+func (m *Model) ruleTOMBXATTRS(r *Results) {
+	const rule = "R-TOMB-XATTRS"
+	m.sitesHealthy(r, rule)
+	n := 0
+	for _, dw := range m.docWrites() {
+		if dw.W.Update == nil {
+			continue
+		}
+		val, hasV := dw.W.Update["value"]
+		x, hasX := dw.W.Update["xattrs"]
+		if !hasV || !isNullLit(val) || !hasX || !isParam(x) {
+			continue
+		}
+		site := dw.siteFor("xattrs")
+		b, ok := site.bindingFor(x)
+		if !ok || b.V == nil {
+			continue
+		}
+		n++
+		key := site.key(m, dw.Variant) + " / xattrs filtered"
+		pos := m.instrPos(site.Call)
+		F := site.Fn
+		// does the bound value have an alternative that is the row's xattrs as read?
+		e := m.newTermEval()
+		fr := m.closureFrame(F)
+		t := e.term(b.V, site.Call, fr)
+		raw := false
+		for _, alt := range t.alts() {
+			if isScanOf(alt, "xattrs", false) {
+				raw = true
+			}
+		}
+		if !raw {
+			r.ok(rule, key, pos, "the xattrs bound by the tombstoning statement are computed (%s), not the row's xattrs as read", t)
+			continue
+		}
+		// the raw loads the bound value can come from
+		var loads []*ssa.UnOp
+		seen := map[ssa.Value]bool{}
+		var walk func(v ssa.Value)
+		walk = func(v ssa.Value) {
+			v = stripConv(v)
+			if seen[v] {
+				return
+			}
+			seen[v] = true
+			switch y := v.(type) {
+			case *ssa.Phi:
+				for _, ed := range y.Edges {
+					walk(ed)
+				}
+			case *ssa.UnOp:
+				if y.Op == token.MUL {
+					loads = append(loads, y)
+				}
+			}
+		}
+		walk(b.V)
+		bad := ""
+		decided := false
+		for _, ld := range loads {
+			cell := ld.X
+			// the scan that fills the cell from documents.xattrs, in this function
+			var sc *scanCall
+			for _, c := range m.scanCalls() {
+				if c.Fn != F || c.Site == nil {
+					continue
+				}
+				for i, d := range c.Dests {
+					if d != cell {
+						continue
+					}
+					for _, v := range c.Site.Variants {
+						if st := v.Stmt(); st != nil && st.Select != nil && i < len(st.Select.Cols) && isCol(st.Select.Cols[i].Expr, "xattrs") {
+							sc = c
+						}
+					}
+				}
+			}
+			if sc == nil {
+				continue
+			}
+			decided = true
+			c := newCut()
+			// stores to the cell overwrite the raw value
+			for _, blk := range F.Blocks {
+				for i, ins := range blk.Instrs {
+					st, ok := ins.(*ssa.Store)
+					if !ok || st.Addr != cell {
+						continue
+					}
+					if blk == ld.Block() && indexIn(blk, ld) < i {
+						continue // stored after the load
+					}
+					if blk == sc.Call.Block() && i < indexIn(blk, sc.Call) {
+						continue // stored before the scan
+					}
+					c.cutBlock(blk)
+				}
+			}
+			// edges on which the read xattrs are known to be empty
+			isCellLoad := func(v ssa.Value) bool {
+				l2, ok := stripConv(v).(*ssa.UnOp)
+				return ok && l2.Op == token.MUL && l2.X == cell
+			}
+			for _, iff := range allIfs(F) {
+				cd := condOf(iff)
+				if cd.Y == nil {
+					continue
+				}
+				lenOfCell := func(v ssa.Value) bool {
+					call, ok := stripConv(v).(*ssa.Call)
+					if !ok {
+						return false
+					}
+					bi, ok := call.Common().Value.(*ssa.Builtin)
+					return ok && bi.Name() == "len" && len(call.Common().Args) == 1 && isCellLoad(call.Common().Args[0])
+				}
+				switch {
+				case lenOfCell(cd.X) && isZeroConst(cd.Y):
+					switch cd.Op {
+					case token.EQL, token.LEQ:
+						c.cutEdge(iff.Block(), cd.succWhen(true))
+					case token.NEQ, token.GTR:
+						c.cutEdge(iff.Block(), cd.succWhen(false))
+					}
+				case isCellLoad(cd.X) && isNilConst(cd.Y) || isCellLoad(cd.Y) && isNilConst(cd.X):
+					if eq, ok := cd.equalEdge(); ok {
+						c.cutEdge(iff.Block(), eq)
+					}
+				}
+			}
+			if c.blocks[ld.Block().Index] {
+				continue
+			}
+			if sc.Call.Block() == ld.Block() || reachableFromSuccs(sc.Call.Block(), c)[ld.Block().Index] {
+				bad = "the row's xattrs, as read, can reach the statement unfiltered on a path on which they are not known to be empty"
+			}
+		}
+		switch {
+		case !decided:
+			r.bad(rule, key, pos, "the tombstoning statement binds the row's xattrs as read (%s): user xattrs survive the deletion", t)
+		case bad != "":
+			r.bad(rule, key, pos, "%s: user xattrs survive the deletion", bad)
+		default:
+			r.ok(rule, key, pos, "the read xattrs reach the tombstoning statement only filtered, or on paths where they are empty")
+		}
+	}
+	if n == 0 {
+		r.undecided(rule, "instance-floor", "-", "no tombstoning statement binds xattrs from Go")
+	}
+}
+
+// ---------------------------------------------------------------- R-ERR-OVERWRITE
+
+// An error stored into a variable (a captured or address-taken cell) must be examined or used
+// before the variable is assigned again: otherwise a failure reported by an earlier step (an
+// earlier loop iteration) is silently replaced by the outcome of a later one.
+func (m *Model) ruleERROVERWRITE(r *Results) {
+	const rule = "R-ERR-OVERWRITE"
+	errT := types.Universe.Lookup("error").Type()
+	n := 0
+	for _, fn := range m.Funcs {
+		if !m.inPkg(fn) || len(fn.Blocks) == 0 {
+			continue
+		}
+		// stores of error values into cells, by cell
+		byCell := map[ssa.Value][]*ssa.Store{}
+		for _, b := range fn.Blocks {
+			for _, ins := range b.Instrs {
+				st, ok := ins.(*ssa.Store)
+				if !ok || !types.Identical(st.Val.Type(), errT) {
+					continue
+				}
+				switch st.Addr.(type) {
+				case *ssa.Alloc, *ssa.FreeVar:
+					byCell[st.Addr] = append(byCell[st.Addr], st)
+				}
+			}
+		}
+		for cell, stores := range byCell {
+			isLoad := func(v ssa.Value) bool {
+				ld, ok := stripConv(v).(*ssa.UnOp)
+				return ok && ld.Op == token.MUL && ld.X == cell
+			}
+			// a "use" of the error: any referrer of a load of the cell that is not a comparison with nil
+			usesAt := map[*ssa.BasicBlock][]int{} // instruction indexes of uses, per block
+			noteUse := func(in ssa.Instruction) {
+				usesAt[in.Block()] = append(usesAt[in.Block()], indexIn(in.Block(), in))
+			}
+			for _, b := range fn.Blocks {
+				for _, ins := range b.Instrs {
+					ld, ok := ins.(*ssa.UnOp)
+					if !ok || ld.Op != token.MUL || ld.X != cell || ld.Referrers() == nil {
+						continue
+					}
+					for _, ref := range *ld.Referrers() {
+						if bo, ok := ref.(*ssa.BinOp); ok && (bo.Op == token.EQL || bo.Op == token.NEQ) && (isNilConst(bo.X) || isNilConst(bo.Y)) {
+							continue
+						}
+						if _, ok := ref.(*ssa.DebugRef); ok {
+							continue
+						}
+						noteUse(ref)
+					}
+				}
+			}
+			for _, st := range stores {
+				if isNilConst(st.Val) {
+					continue
+				}
+				// only values that can be a fresh failure: results of calls
+				v := stripConv(st.Val)
+				if ex, ok := v.(*ssa.Extract); ok {
+					v = ex.Tuple
+				}
+				if _, isCall := v.(*ssa.Call); !isCall {
+					continue
+				}
+				n++
+				c := newCut()
+				for _, iff := range allIfs(fn) {
+					cd := condOf(iff)
+					eq, ok := cd.equalEdge()
+					if !ok {
+						continue
+					}
+					if isNilConst(cd.Y) && (isLoad(cd.X) || stripConv(cd.X) == stripConv(st.Val)) || isNilConst(cd.X) && (isLoad(cd.Y) || stripConv(cd.Y) == stripConv(st.Val)) {
+						c.cutEdge(iff.Block(), eq)
+					}
+				}
+				// direct uses of the stored value also count
+				if refs := st.Val.Referrers(); refs != nil {
+					for _, ref := range *refs {
+						if ref == ssa.Instruction(st) {
+							continue
+						}
+						if bo, ok := ref.(*ssa.BinOp); ok && (bo.Op == token.EQL || bo.Op == token.NEQ) {
+							continue
+						}
+						if _, ok := ref.(*ssa.DebugRef); ok {
+							continue
+						}
+						if _, ok := ref.(*ssa.Extract); ok {
+							continue
+						}
+						noteUse(ref)
+					}
+				}
+				// walk: from just after st, can another store to the cell be reached with the error unexamined?
+				var hit *ssa.Store
+				scan := func(b *ssa.BasicBlock, from int) (stop bool) {
+					for i := from; i < len(b.Instrs); i++ {
+						for _, u := range usesAt[b] {
+							if u == i {
+								return true
+							}
+						}
+						if s2, ok := b.Instrs[i].(*ssa.Store); ok && s2.Addr == cell {
+							hit = s2
+							return true
+						}
+						if _, ok := b.Instrs[i].(*ssa.Return); ok {
+							return true
+						}
+					}
+					return false
+				}
+				seen := map[int]bool{}
+				var visit func(b *ssa.BasicBlock, from int)
+				visit = func(b *ssa.BasicBlock, from int) {
+					if hit != nil || scan(b, from) {
+						return
+					}
+					for _, s := range b.Succs {
+						if c.edges[edge{b.Index, s.Index}] || seen[s.Index] {
+							continue
+						}
+						seen[s.Index] = true
+						visit(s, 0)
+					}
+				}
+				visit(st.Block(), indexIn(st.Block(), st)+1)
+				key := fmt.Sprintf("%s / error stored in %s", m.declName(fn), cellName(cell))
+				if hit != nil {
+					r.bad(rule, key, m.instrPos(st), "the error stored here can be overwritten (at %s) before it has been examined or used: a failure of this step is silently replaced by the outcome of a later one", m.instrPos(hit))
+				} else {
+					r.ok(rule, key, m.instrPos(st), "the stored error is examined or used before the variable is assigned again")
+				}
+			}
+		}
+	}
+	if n < 10 {
+		r.undecided(rule, "instance-floor", "-", "only %d error stores found", n)
+	}
+}
+
+func cellName(v ssa.Value) string {
+	switch x := v.(type) {
+	case *ssa.Alloc:
+		if x.Comment != "" {
+			return x.Comment
+		}
+	case *ssa.FreeVar:
+		return x.Name()
+	}
+	return v.Name()
+}
+
+// ---------------------------------------------------------------- R-OPTS-CARRY
+
+// A function that receives an options struct by pointer and hands an options struct of the same
+// type on to the function that does the work must hand on the caller's options: the same
+// pointer, or a copy that carries every field. A fresh struct with only some fields set silently
+// drops the others (e.g. PreserveExpiry).
+func (m *Model) ruleOPTSCARRY(r *Results) {
+	const rule = "R-OPTS-CARRY"
+	n := 0
+	for _, fn := range m.Funcs {
+		if !m.inPkg(fn) || fn.Parent() != nil || len(fn.Blocks) == 0 {
+			continue
+		}
+		for _, P := range fn.Params {
+			pt, ok := P.Type().(*types.Pointer)
+			if !ok {
+				continue
+			}
+			named, ok := pt.Elem().(*types.Named)
+			if !ok || !strings.HasSuffix(named.Obj().Name(), "Options") {
+				continue
+			}
+			stT, ok := named.Underlying().(*types.Struct)
+			if !ok {
+				continue
+			}
+			m.eachCall(fn, func(c ssa.CallInstruction) {
+				callee := c.Common().StaticCallee()
+				if callee == nil || !m.inPkg(callee) {
+					return
+				}
+				for _, arg := range c.Common().Args {
+					if !types.Identical(arg.Type(), P.Type()) {
+						continue
+					}
+					n++
+					key := fmt.Sprintf("%s / %s handed to %s", m.declName(fn), P.Name(), m.declName(callee))
+					var problems []string
+					seen := map[ssa.Value]bool{}
+					var leaf func(v ssa.Value)
+					leaf = func(v ssa.Value) {
+						v = stripConv(v)
+						if seen[v] {
+							return
+						}
+						seen[v] = true
+						switch x := v.(type) {
+						case *ssa.Parameter:
+							if x != P {
+								problems = append(problems, "a different parameter is passed")
+							}
+						case *ssa.Phi:
+							for _, e := range x.Edges {
+								leaf(e)
+							}
+						case *ssa.Const:
+							if x.Value == nil {
+								problems = append(problems, "nil is passed instead of the caller's options")
+							}
+						case *ssa.Alloc:
+							// whole-struct copy from *P, or every field copied from P's field
+							whole := false
+							copied := map[int]bool{}
+							for _, ref := range *x.Referrers() {
+								switch y := ref.(type) {
+								case *ssa.Store:
+									if y.Addr == ssa.Value(x) {
+										if ld, ok := stripConv(y.Val).(*ssa.UnOp); ok && ld.Op == token.MUL && stripConv(ld.X) == ssa.Value(P) {
+											whole = true
+										}
+									}
+								case *ssa.FieldAddr:
+									for _, r2 := range *y.Referrers() {
+										if st, ok := r2.(*ssa.Store); ok && st.Addr == ssa.Value(y) && m.derivesFromParamField(st.Val, P, y.Field, 0) {
+											copied[y.Field] = true
+										}
+									}
+								}
+							}
+							if !whole {
+								var missing []string
+								for i := 0; i < stT.NumFields(); i++ {
+									if !copied[i] {
+										missing = append(missing, stT.Field(i).Name())
+									}
+								}
+								if len(missing) > 0 {
+									problems = append(problems, "a fresh "+named.Obj().Name()+" is passed that does not carry the caller's "+strings.Join(missing, ", "))
+								}
+							}
+						case *ssa.UnOp:
+							if x.Op == token.MUL {
+								if al, ok := x.X.(*ssa.Alloc); ok {
+									for _, ref := range *al.Referrers() {
+										if st, ok := ref.(*ssa.Store); ok && st.Addr == ssa.Value(al) {
+											leaf(st.Val)
+										}
+									}
+									return
+								}
+							}
+							problems = append(problems, "the options passed cannot be traced to the caller's")
+						default:
+							problems = append(problems, "the options passed cannot be traced to the caller's")
+						}
+					}
+					leaf(arg)
+					if len(problems) == 0 {
+						r.ok(rule, key, m.instrPos(c), "the caller's options are handed on (same pointer or complete copy)")
+					} else {
+						r.bad(rule, key, m.instrPos(c), "%s: options the caller set are ignored by the write", strings.Join(uniq(problems), "; "))
+					}
+				}
+			})
+		}
+	}
+	if n < 5 {
+		r.undecided(rule, "instance-floor", "-", "only %d forwarded options arguments found", n)
+	}
+}
+
+// derivesFromParamField: v is computed from field `field` of *P (possibly through calls such as append).
+func (m *Model) derivesFromParamField(v ssa.Value, P *ssa.Parameter, field int, depth int) bool {
+	if depth > 6 {
+		return false
+	}
+	v = stripConv(v)
+	switch x := v.(type) {
+	case *ssa.UnOp:
+		if x.Op == token.MUL {
+			if fa, ok := x.X.(*ssa.FieldAddr); ok && fa.Field == field && stripConv(fa.X) == ssa.Value(P) {
+				return true
+			}
+			// a load of a field of the fresh struct itself that was earlier copied (x.f = append(x.f, ..))
+			if fa, ok := x.X.(*ssa.FieldAddr); ok && fa.Field == field {
+				for _, ref := range *fa.X.Referrers() {
+					if fa2, ok := ref.(*ssa.FieldAddr); ok && fa2.Field == field {
+						for _, r2 := range *fa2.Referrers() {
+							if st, ok := r2.(*ssa.Store); ok && st.Addr == ssa.Value(fa2) && st.Val != ssa.Value(x) && !dependsOn(st.Val, x) && m.derivesFromParamField(st.Val, P, field, depth+1) {
+								return true
+							}
+						}
+					}
+				}
+			}
+		}
+	case *ssa.Call:
+		for _, a := range x.Common().Args {
+			if m.derivesFromParamField(a, P, field, depth+1) {
+				return true
+			}
+		}
+	case *ssa.Phi:
+		for _, e := range x.Edges {
+			if m.derivesFromParamField(e, P, field, depth+1) {
+				return true
+			}
+		}
+	case *ssa.Slice:
+		return m.derivesFromParamField(x.X, P, field, depth+1)
+	}
+	return false
+}
+
+func dependsOn(v, on ssa.Value) bool {
+	seen := map[ssa.Value]bool{}
+	var rec func(v ssa.Value) bool
+	rec = func(v ssa.Value) bool {
+		if v == on {
+			return true
+		}
+		if seen[v] {
+			return false
+		}
+		seen[v] = true
+		if in, ok := v.(ssa.Instruction); ok {
+			for _, op := range in.Operands(nil) {
+				if *op != nil && rec(*op) {
+					return true
+				}
+			}
+		}
+		return false
+	}
+	return rec(v)
+}
+
+// ---------------------------------------------------------------- R-BACKFILL-COND
+
+// Whether the snapshot is taken depends only on what the caller asked for: every branch that
+// controls a call on the path from a feed-start function down to the backfill statement is an
+// error test or a test of the feed arguments. A condition on stored state (a persisted mark, a
+// feed field, a query result) can skip the snapshot although documents at or above the start CAS exist.
+func (m *Model) ruleBACKFILLCOND(r *Results) {
+	const rule = "R-BACKFILL-COND"
+	bs := m.backfillSites()
+	if len(bs) != 1 {
+		r.undecided(rule, "anchors", "-", "backfill statement unresolved")
+		return
+	}
+	bfFn := bs[0].Fn
+	errT := types.Universe.Lookup("error").Type()
+	isArgsStruct := func(t types.Type) bool {
+		if p, ok := t.(*types.Pointer); ok {
+			t = p.Elem()
+		}
+		return isNamed(t, sgbucketPath, "FeedArguments")
+	}
+	// stateful: the value derives from a non-builtin call result or from a field of a struct other than the feed arguments
+	var stateful func(v ssa.Value, depth int, seen map[ssa.Value]bool) (bool, string)
+	stateful = func(v ssa.Value, depth int, seen map[ssa.Value]bool) (bool, string) {
+		v = stripConv(v)
+		if depth > 8 || seen[v] {
+			return false, ""
+		}
+		seen[v] = true
+		switch x := v.(type) {
+		case *ssa.Const, *ssa.Parameter, *ssa.Global, *ssa.Lookup, *ssa.TypeAssert, *ssa.Alloc:
+			return false, ""
+		case *ssa.Extract:
+			return stateful(x.Tuple, depth+1, seen)
+		case *ssa.Call:
+			if _, isB := x.Common().Value.(*ssa.Builtin); isB {
+				for _, a := range x.Common().Args {
+					if s, w := stateful(a, depth+1, seen); s {
+						return s, w
+					}
+				}
+				return false, ""
+			}
+			name := "a call"
+			if f := x.Common().StaticCallee(); f != nil {
+				name = "the result of " + f.Name()
+			}
+			return true, name
+		case *ssa.Field:
+			if isArgsStruct(x.X.Type()) {
+				return false, ""
+			}
+			return stateful(x.X, depth+1, seen)
+		case *ssa.UnOp:
+			if x.Op == token.MUL {
+				if fa, ok := x.X.(*ssa.FieldAddr); ok {
+					if isArgsStruct(fa.X.Type()) {
+						return false, ""
+					}
+					// a field of the arguments reached through the feed object (feed.args.X)
+					if inner, ok := stripConv(fa.X).(*ssa.FieldAddr); ok && isArgsStruct(inner.Type()) {
+						return false, ""
+					}
+					return true, "field " + fieldOf(fa).Name()
+				}
+				if al, ok := x.X.(*ssa.Alloc); ok {
+					for _, ref := range *al.Referrers() {
+						if st, ok := ref.(*ssa.Store); ok && st.Addr == ssa.Value(al) {
+							if s, w := stateful(st.Val, depth+1, seen); s {
+								return s, w
+							}
+						}
+					}
+				}
+				return false, ""
+			}
+			return stateful(x.X, depth+1, seen)
+		case *ssa.BinOp:
+			if s, w := stateful(x.X, depth+1, seen); s {
+				return s, w
+			}
+			return stateful(x.Y, depth+1, seen)
+		case *ssa.Phi:
+			for _, e := range x.Edges {
+				if s, w := stateful(e, depth+1, seen); s {
+					return s, w
+				}
+			}
+		}
+		return false, ""
+	}
+	n := 0
+	visited := map[*ssa.Function]bool{}
+	var up func(target *ssa.Function, depth int)
+	up = func(target *ssa.Function, depth int) {
+		if visited[target] || depth > 4 {
+			return
+		}
+		visited[target] = true
+		for _, c := range m.staticCallersOf(target) {
+			if _, isGo := c.(*ssa.Go); isGo {
+				continue
+			}
+			F := c.Parent()
+			if !m.inPkg(F) {
+				continue
+			}
+			n++
+			key := fmt.Sprintf("%s / call of %s", m.declName(F), m.declName(target))
+			var problems []string
+			for _, ct := range controllingConds(F, c.Block()) {
+				cd := condOf(ct.If)
+				ops := []ssa.Value{cd.X}
+				if cd.Y != nil {
+					ops = append(ops, cd.Y)
+				}
+				isErrTest := false
+				for _, o := range ops {
+					if o != nil && types.Identical(o.Type(), errT) {
+						isErrTest = true
+					}
+				}
+				if isErrTest {
+					continue
+				}
+				for _, o := range ops {
+					if o == nil {
+						continue
+					}
+					if s, w := stateful(o, 0, map[ssa.Value]bool{}); s {
+						problems = append(problems, fmt.Sprintf("the call is taken only under a condition on %s (%s)", w, m.instrPos(ct.If)))
+					}
+				}
+			}
+			if len(problems) == 0 {
+				r.ok(rule, key, m.instrPos(c), "controlled only by error tests and tests of the feed arguments")
+			} else {
+				r.bad(rule, key, m.instrPos(c), "%s: the snapshot can be skipped although documents at or above the start CAS exist", strings.Join(uniq(problems), "; "))
+			}
+			up(F, depth+1)
+		}
+	}
+	up(bfFn, 0)
+	if n == 0 {
+		r.undecided(rule, "instance-floor", "-", "the backfill function is never called")
+	}
+}
+
+// ---------------------------------------------------------------- R-VIEW-PARAMS
+
+// Every query option the view engine honours today is still read by the view query path.
+var viewParamsHonoured = []string{"MinKey", "MaxKey", "IncludeMinKey", "IncludeMaxKey", "Descending", "Limit", "IncludeDocs"}
+
+func (m *Model) ruleVIEWPARAMS(r *Results) {
+	const rule = "R-VIEW-PARAMS"
+	var root *ssa.Function
+	for _, fn := range m.Funcs {
+		if fn.Parent() != nil || !m.inPkg(fn) {
+			continue
+		}
+		has := false
+		for _, p := range fn.Params {
+			if isPtrToNamed(p.Type(), sgbucketPath, "ViewParams") {
+				has = true
+			}
+		}
+		if !has {
+			continue
+		}
+		for _, s := range m.Sites {
+			if m.reachableLocal(fn)[s.Fn] || s.Fn == fn {
+				root = fn
+			}
+		}
+	}
+	if root == nil {
+		r.undecided(rule, "anchors", "-", "no function takes *ViewParams and runs SQL")
+		return
+	}
+	read := map[string]bool{}
+	var visit func(f *ssa.Function)
+	seenF := map[*ssa.Function]bool{}
+	visit = func(f *ssa.Function) {
+		if seenF[f] {
+			return
+		}
+		seenF[f] = true
+		for _, b := range f.Blocks {
+			for _, ins := range b.Instrs {
+				switch x := ins.(type) {
+				case *ssa.FieldAddr:
+					if !isPtrToNamed(x.X.Type(), sgbucketPath, "ViewParams") || x.Referrers() == nil {
+						continue
+					}
+					for _, ref := range *x.Referrers() {
+						if st, ok := ref.(*ssa.Store); ok && st.Addr == ssa.Value(x) {
+							continue // assignment only
+						}
+						if _, ok := ref.(*ssa.DebugRef); ok {
+							continue
+						}
+						read[fieldOf(x).Name()] = true
+					}
+				case *ssa.Field:
+					if isNamed(x.X.Type(), sgbucketPath, "ViewParams") {
+						read[fieldOfField(x).Name()] = true
+					}
+				}
+			}
+		}
+		for _, an := range f.AnonFuncs {
+			visit(an)
+		}
+	}
+	for f := range m.reachableLocal(root) {
+		visit(f)
+	}
+	visit(root)
+	for _, name := range viewParamsHonoured {
+		r.check(read[name], rule, m.declName(root)+" / option "+name, m.pos(root.Pos()), "the option is read by the view query path", "the view query path no longer reads the option "+name+": queries that set it get rows as if it had its default")
+	}
+}
+
+// ---------------------------------------------------------------- R-OPEN-ERR
+
+// The open function cleans up after a failure by deleting the bucket it was building. Once that
+// bucket has been handed to the registry (where another opener's handle may already share the
+// store) no return may carry an error any more: the cleanup would delete a store that is in use.
+func (m *Model) ruleOPENERR(r *Results) {
+	const rule = "R-OPEN-ERR"
+	a := &m.A
+	fn := a.OpenFn
+	if fn == nil || a.CloneFn == nil {
+		r.undecided(rule, "anchors", "-", "open function / handle copy unresolved")
+		return
+	}
+	errT := types.Universe.Lookup("error").Type()
+	var regs []ssa.CallInstruction
+	m.eachCall(fn, func(c ssa.CallInstruction) {
+		f := c.Common().StaticCallee()
+		if f != nil && m.inPkg(f) && m.reachableLocal(f)[a.CloneFn] {
+			// the registration of the bucket being built: it is handed the new bucket
+			for _, arg := range c.Common().Args {
+				if pt, ok := arg.Type().(*types.Pointer); ok && a.BucketType != nil && types.Identical(pt.Elem(), a.BucketType) {
+					regs = append(regs, c)
+					break
+				}
+			}
+		}
+	})
+	// is there a deferred cleanup that deletes on error at all?
+	deletes := false
+	for _, an := range fn.AnonFuncs {
+		for g := range m.reachableLocal(an) {
+			if g == a.ShutdownFn {
+				deletes = true
+			}
+		}
+		m.eachCall(an, func(c ssa.CallInstruction) {
+			if f := c.Common().StaticCallee(); f != nil && m.inPkg(f) && m.reachableLocal(f)[a.ShutdownFn] {
+				deletes = true
+			}
+		})
+	}
+	if len(regs) == 0 {
+		r.undecided(rule, m.declName(fn)+" / registration", m.pos(fn.Pos()), "the open function does not register the bucket")
+		return
+	}
+	if !deletes {
+		r.ok(rule, m.declName(fn)+" / no error after registration", m.pos(fn.Pos()), "the open function has no cleanup that shuts the store down on error")
+		return
+	}
+	key := m.declName(fn) + " / no error after registration"
+	var problems []string
+	for _, ret := range returnsOf(fn) {
+		afterReg := false
+		for _, rg := range regs {
+			if instrReachable(rg, ret, nil) {
+				afterReg = true
+			}
+		}
+		if !afterReg {
+			continue
+		}
+		for _, res := range ret.Results {
+			if !types.Identical(res.Type(), errT) || isNilConst(res) {
+				continue
+			}
+			// a load of the error variable: which stores can reach this return with a non-nil value?
+			ld, ok := stripConv(res).(*ssa.UnOp)
+			if !ok || ld.Op != token.MUL {
+				problems = append(problems, fmt.Sprintf("return at %s carries an error value the checker cannot bound", m.instrPos(ret)))
+				continue
+			}
+			cell := ld.X
+			c := newCut()
+			for _, iff := range allIfs(fn) {
+				cd := condOf(iff)
+				eq, ok := cd.equalEdge()
+				if !ok {
+					continue
+				}
+				isCell := func(v ssa.Value) bool {
+					l2, ok := stripConv(v).(*ssa.UnOp)
+					return ok && l2.Op == token.MUL && l2.X == cell
+				}
+				if isNilConst(cd.Y) && isCell(cd.X) || isNilConst(cd.X) && isCell(cd.Y) {
+					c.cutEdge(iff.Block(), eq)
+				}
+			}
+			var stores []*ssa.Store
+			for _, b := range fn.Blocks {
+				for _, ins := range b.Instrs {
+					if st, ok := ins.(*ssa.Store); ok && st.Addr == cell && !isNilConst(st.Val) {
+						// `return x, err` re-stores the variable's own value into the named result: not a new definition
+						if l2, ok := stripConv(st.Val).(*ssa.UnOp); ok && l2.Op == token.MUL && l2.X == cell {
+							continue
+						}
+						stores = append(stores, st)
+					}
+				}
+			}
+			for _, st := range stores {
+				c2 := newCut()
+				for k := range c.edges {
+					c2.edges[k] = true
+				}
+				for _, o := range stores {
+					if o != st && o.Block() != st.Block() {
+						c2.cutBlock(o.Block())
+					}
+				}
+				if st.Block() == ret.Block() && indexIn(st.Block(), st) < indexIn(ret.Block(), ret) || reachableFromSuccs(st.Block(), c2)[ret.Block().Index] {
+					problems = append(problems, fmt.Sprintf("the error stored at %s can be returned at %s, after the bucket was registered", m.instrPos(st), m.instrPos(ret)))
+				}
+			}
+		}
+	}
+	if len(problems) == 0 {
+		r.ok(rule, key, m.instrPos(regs[0]), "every return that follows the registration returns a nil error")
+	} else {
+		r.bad(rule, key, m.instrPos(regs[0]), "%s: the cleanup-on-error then shuts down and deletes a store that another handle may already be using", strings.Join(uniq(problems), "; "))
+	}
+}
